@@ -179,6 +179,9 @@ contract(
     ensures_names=['gone-from-connections', 'gone-from-every-link-table', 'other-links-kept', 'no-change-unless-success', 'listeners-told-once',
                    'every-data-queue-flushed-for-the-handle', 'failure-only-reported', 'unknown-handle-ignored'],
     modifies=HOST_TABLES + ['ghost.flag_pops', 'ghost.events', 'ghost.flushed'],
+    # the host's own look-up helper (handle -> the data queue its link uses) is followed, not skipped: a clean-up that
+    # goes through it instead of naming the three queues is judged by the same post (which queues were flushed)
+    inline=['Host.get_data_packet_queue'],
 )
 
 
@@ -567,7 +570,7 @@ contract(
 # ---------------------------------------------------------------------------
 def rec_abort_classic(ghost, chan):
     """recording stub for the abort() of a channel registered in ChannelManager.channels[handle] (the real aborts have
-    their own contracts below); ghost.c is a fixed but arbitrary CID"""
+    their own contracts below); ghost.c is a fixed but arbitrary CID; the channel registered under it is of either class"""
     ghost.ab_src = ghost.ab_src + (1 if chan.source_cid == ghost.c else 0)
 
 
@@ -576,12 +579,18 @@ def rec_abort_coc(ghost, chan):
 
 
 CID = IntRange(0, 0xFFFF)
-model('bumble.l2cap:ClassicChannel#c16rec', fields=dict(source_cid=(CID, 0)), methods={'abort': Callback('abort', effect=rec_abort_classic, with_self=True)})
+# a value of channels[handle] is a channel of EITHER class: classic channels, and LE credit-based channels (from the moment
+# the connection request is sent, i.e. also while still CONNECTING and not yet in le_coc_channels).  `is_classic` is the
+# record's class: isinstance(channel, ClassicChannel / LeCreditBasedChannel) in the code under proof is answered from it
+# (pyvc/ext_c16.py KIND_CLASSES), so a teardown that treats the two classes differently is checked for both.
+model('contracts.c16_env:ChannelRec#c16rec', fields=dict(source_cid=(CID, 0), is_classic=(Bool, False)),
+      methods={'abort': Callback('abort', effect=rec_abort_classic, with_self=True)})
+ext_c16.KIND_CLASSES['contracts.c16_env:ChannelRec#c16rec'] = ('is_classic', _l2cap.ClassicChannel, _l2cap.LeCreditBasedChannel)
 model('bumble.l2cap:LeCreditBasedChannel#c16rec', fields=dict(destination_cid=(CID, 0)), methods={'abort': Callback('abort', effect=rec_abort_coc, with_self=True)})
 # a value of pending_credit_based_connections[handle] is a (future, channels) pair: the record is the future
 model('contracts.c16_env:Fut#pending', fields=dict(st=(IntRange(0, 3), 0), guard=(IntRange(0, 2), 0)))
 ext_c16.TUPLE_VALUES['contracts.c16_env:Fut#pending'] = ('rec', 'channels')
-model('contracts.c16_env:KeyView#channels', fields=dict(key=HANDLE, present=Bool, value=MapOf('bumble.l2cap:ClassicChannel#c16rec')))
+model('contracts.c16_env:KeyView#channels', fields=dict(key=HANDLE, present=Bool, value=MapOf('contracts.c16_env:ChannelRec#c16rec')))
 model('contracts.c16_env:KeyView#coc', fields=dict(key=HANDLE, present=Bool, value=MapOf('bumble.l2cap:LeCreditBasedChannel#c16rec')))
 model('contracts.c16_env:KeyView#pending', fields=dict(key=HANDLE, present=Bool, value=MapOf('contracts.c16_env:Fut#pending')))
 model('contracts.c16_env:KeyView#ids', fields=dict(key=HANDLE, present=Bool, value=IntRange(0, 255)))
@@ -643,7 +652,8 @@ contract(
         # nothing is registered for the handle any more: channels, LE CoC channels, pending requests, identifier counter
         l2_emptied(self),
         # every channel of the connection was aborted -- including LE credit-based channels that are still CONNECTING and
-        # therefore only in `channels` (ghost.c is an arbitrary CID) ...
+        # therefore only in `channels` (ghost.c is an arbitrary CID; the channel registered under it is of arbitrary class:
+        # its `is_classic` column is unconstrained) ...
         ghost.ab_src == old.ghost.ab_src + (1 if old.self.channels.present and mhas(old.self.channels.value, ghost.c) else 0),
         ghost.ab_dst == old.ghost.ab_dst + (1 if old.self.le_coc_channels.present and mhas(old.self.le_coc_channels.value, ghost.c) else 0),
         # ... and whoever waits for the answer to an enhanced credit-based connection request is released
